@@ -210,17 +210,17 @@ class _NPX:
             return obj(_np.eye(N, M, k, dtype=int))
         return _np.eye(N, M, k, dtype=dtype, **kw)
 
-    def zeros_like(self, a, dtype=None, **kw):
+    def zeros_like(self, a, dtype=None, shape=None, **kw):
         a = _np.asarray(a)
         if dtype is None and a.dtype.kind in "iub":
-            return _np.zeros_like(a)
-        return self.zeros(a.shape, dtype=dtype)
+            return _np.zeros_like(a, shape=shape)          # an integer / boolean prototype gives an integer / boolean array, as in NumPy
+        return self.zeros(a.shape if shape is None else shape, dtype=dtype)
 
-    def ones_like(self, a, dtype=None, **kw):
+    def ones_like(self, a, dtype=None, shape=None, **kw):
         a = _np.asarray(a)
         if dtype is None and a.dtype.kind in "iub":
-            return _np.ones_like(a)
-        return self.ones(a.shape, dtype=dtype)
+            return _np.ones_like(a, shape=shape)
+        return self.ones(a.shape if shape is None else shape, dtype=dtype)
 
     def linspace(self, start, stop, num=50, dtype=None, **kw):
         return obj(_np.linspace(start, stop, num, **kw))
